@@ -58,6 +58,7 @@ type Engine struct {
 	errors        []string
 	funcsVerified []string
 	pathCount     map[string]int
+	coverDone     map[string]bool
 
 	MaxPaths      int
 	DefaultUnroll int
@@ -72,7 +73,7 @@ func NewEngine(w *World) *Engine {
 	e := &Engine{W: w, C: NewSMTCtx(), sentinels: map[string]bool{}, usedExterns: map[string]bool{}, usedWires: map[string]bool{},
 		usedSpecs: map[string]bool{}, inlined: map[string]bool{}, contractCalls: map[string]bool{}, noiseCalls: map[string]bool{},
 		havocked: map[string]bool{}, unrolled: map[string]bool{}, inlineOverride: map[string]bool{}, entryVals: map[*Frame][]Val{},
-		pathCount: map[string]int{}, MaxPaths: 4000, DefaultUnroll: 2, TimeoutS: 10}
+		pathCount: map[string]int{}, coverDone: map[string]bool{}, MaxPaths: 4000, DefaultUnroll: 2, TimeoutS: 10}
 	e.C.DeclareSort("Obj")
 	for _, s := range w.Sorts {
 		e.C.DeclareSort(s)
@@ -260,6 +261,9 @@ func (e *Engine) VerifyFunc(key string) {
 					}
 				}
 			}
+			// vacuity: at least one returning path is reachable under the precondition
+			e.oblige(o.St, name+"#vacuity.reach", "cover", "true", "some returning path is satisfiable under the precondition and the callee contracts (must be sat)", fc.Props)
+			e.obls[len(e.obls)-1].Cover = true
 			for _, cv := range fc.Covers {
 				g := e.evalBool(penv, cv.E)
 				e.oblige(o.St, name+"#cover."+cv.Label, "cover", g, cv.Src, fc.Props)
@@ -306,6 +310,11 @@ func (e *Engine) RunLemma(l *Lemma) {
 			st.assume(e.evalBool(env, s.E))
 		case "havoc":
 			st.ghost[s.Name] = e.freshGhost(s.Name)
+		case "set":
+			if _, ok := e.W.Ghosts[s.Name]; !ok {
+				unsupported("set: %q is not a ghost variable", s.Name)
+			}
+			st.ghost[s.Name] = e.coerceTo(env, e.evalExpr(env, s.E), e.ghostSort(s.Name))
 		case "show":
 			nshow++
 			lbl := s.Label
@@ -322,6 +331,9 @@ func (e *Engine) RunLemma(l *Lemma) {
 	if nshow == 0 {
 		e.fail(name+"#vacuity", "lemma has no show step")
 	}
+	// vacuity: the hypotheses accumulated by the script (assumes, callee contracts, proved shows) are satisfiable
+	e.oblige(st, name+"#vacuity.sat", "cover", "true", "the lemma's hypotheses are jointly satisfiable (must be sat)", l.Props)
+	e.obls[len(e.obls)-1].Cover = true
 }
 
 func (e *Engine) freshByTypeName(st *State, pkg, name, tn string) Val {
@@ -516,6 +528,23 @@ func (e *Engine) Discharge(par int) {
 		go func(o *Obligation) {
 			defer wg.Done()
 			defer func() { <-sem }()
+			if o.Cover && o.Goal == "true" {
+				// reachability covers: one satisfiable path per group is enough
+				e.mu.Lock()
+				done := e.coverDone[o.Name]
+				e.mu.Unlock()
+				if done {
+					o.Status = "skipped"
+					return
+				}
+				defer func() {
+					if o.Status == "discharged" {
+						e.mu.Lock()
+						e.coverDone[o.Name] = true
+						e.mu.Unlock()
+					}
+				}()
+			}
 			var b strings.Builder
 			for _, h := range o.Hyps {
 				b.WriteString("(assert " + h + ")\n")
@@ -531,7 +560,17 @@ func (e *Engine) Discharge(par int) {
 			}
 			// stage 1: without the quantified library axioms (their ground instances are among the hypotheses):
 			// unsat here is unsat with them too; a model found here is a candidate.
-			r := Solve(e.TmpDir, fmt.Sprintf("q%d_%s", o.QueryNo, o.Name), preludeG+b.String(), e.TimeoutS, e.Agree)
+			qname := fmt.Sprintf("q%d_%s", o.QueryNo, o.Name)
+			if o.Cover {
+				qname = "cover_" + qname
+			}
+			r := Solve(e.TmpDir, qname, preludeG+b.String(), e.TimeoutS, e.Agree && !o.Cover)
+			if o.Cover && r.Status == "sat" {
+				// reachability witness; the library axioms (be64 injective, fixed lengths) are a conservative
+				// extension of any model of the ground instances
+				o.Solver, o.Secs, o.Status = r.Solver, r.Secs, "discharged"
+				return
+			}
 			// A quantifier-free query that is sat without the library axioms is sat with them: the axioms only
 			// constrain be64/unbe64/sha256 outside the ground terms of the query, and Str is an infinite
 			// uninterpreted sort, so the model extends.
@@ -641,17 +680,28 @@ func (e *Engine) Groups() []*Group {
 		}
 		any := false
 		var last *Obligation
+		undecided := false
 		for _, o := range e.obls {
 			if o.Name == name {
 				last = o
 				if o.Status == "discharged" {
 					any = true
 				}
+				if o.Status == "undischarged" {
+					undecided = true
+				}
 			}
 		}
-		if any {
+		switch {
+		case any:
 			g.Status = "discharged"
-		} else {
+		case undecided:
+			// no path was shown reachable, but none was refuted either (satisfiability of quantified hypotheses is
+			// often undecided): not a vacuity failure; made visible in the evidence
+			g.Status = "discharged"
+			g.Solvers["cover-undecided"]++
+		default:
+			// every path is provably unreachable: the hypotheses are contradictory
 			g.Status = "failed"
 			g.Failing = last
 		}
